@@ -17,7 +17,10 @@ fn main() {
     };
     install_panic_hook();
     match args[1].as_str() {
+        "C12" => props::c12::run(tier),
+        "C13" => props::c13::run(tier),
         "C14" => props::c14::run(tier),
+        "C15" => props::c15::run(tier),
         other => {
             eprintln!("unknown property {other}");
             std::process::exit(3);
